@@ -823,12 +823,151 @@ def replay_angc_offset():
     return replay
 
 
+def unit_plan_new_guard(ctx):
+    """NLDFAuxiliaryPlan.new(**kwargs): a plan derived from a plan that handles out-of-range exponents (by raising, or by the smooth cutoff) handles them
+    too — it raises or damps — unless the caller of new() switches the handling off explicitly.  (The constructor clears the raise flag of a smooth-cutoff
+    plan, so neither stored flag may be copied without the other.)"""
+    it = ctx.interp
+    PM = "ciderpress.dft.plans"
+    fq = [PM + ":NLDFAuxiliaryPlan.new", PM + ":NLDFAuxiliaryPlan.__init__"]
+    hyps = []
+    st = make_settings(it, "j", "MGGA", "one", hyps)
+    for raise_, smooth in ((True, False), (False, True), (True, True)):
+        p = make_plan(it, st, 1, nalpha=2, hyps=list(hyps), raise_large_expnt_error=raise_, use_smooth_expnt_cutoff=smooth)
+        handled = lambda q: bool(q.fields["_raise_large_expnt_error"]) or bool(q.fields["_use_smooth_expnt_cutoff"])
+        ctx.holds("plan(raise=%s, smooth=%s) handles out-of-range exponents" % (raise_, smooth), handled(p), "", fq)
+        for label, kw in (("new()", {}), ("new(coef_order='qg')", {"coef_order": "qg"}), ("new(use_smooth_expnt_cutoff=True)", {"use_smooth_expnt_cutoff": True}), ("new().new()", None)):
+            try:
+                q = it.call_method(it.call_method(p, "new", [], {}), "new", [], {}) if kw is None else it.call_method(p, "new", [], dict(kw))
+            except (PyRaise, Unsupported) as e:
+                ctx.undecided("plan(raise=%s, smooth=%s).%s runs" % (raise_, smooth, label), str(e)[:200], fq)
+                continue
+            ctx.holds("plan(raise=%s, smooth=%s).%s: the derived plan raises on an out-of-range exponent or applies the smooth cutoff" % (raise_, smooth, label), handled(q),
+                      "_raise_large_expnt_error=%s, _use_smooth_expnt_cutoff=%s" % (q.fields["_raise_large_expnt_error"], q.fields["_use_smooth_expnt_cutoff"]), fq,
+                      witness={"raise_large_expnt_error": raise_, "use_smooth_expnt_cutoff": smooth, "call": label}, replay=replay_plan_new_guard(raise_, smooth))
+
+
+def replay_plan_new_guard(raise_, smooth):
+    def replay(wit):
+        from pyvc import native
+        native.install_shim()
+        from ciderpress.dft.settings import NLDFSettingsVJ
+        from ciderpress.dft.plans import NLDFGaussianPlan
+        st = NLDFSettingsVJ("MGGA", [1.0, 0.0, 0.03125], "one", ["se_ar2"], [[2.0, 0.0, 0.04]])
+        p = NLDFGaussianPlan(st, 1, 0.01, 1.8, 8, raise_large_expnt_error=raise_, use_smooth_expnt_cutoff=smooth)
+        q = p.new()
+        amax = float(np.max(q.alphas))
+        rho = np.array([1e4])
+        z = np.array([0.0])
+        try:
+            a = q.eval_feat_exp((rho, z, z), i=-1)[0]
+        except RuntimeError as e:
+            return {"reproduced": False, "raised": str(e)[:80]}
+        return {"reproduced": bool(a[0] > amax), "exponent": float(a[0]), "alpha_max": amax}
+    return replay
+
+
+def unit_evaluator_shapes(kind):
+    """RBFEvaluator / AntisymRBFEvaluator / SpinRBFEvaluator.__call__ with a feature matrix whose width does not match the kernel: for every such call the
+    evaluator raises, or what it hands to the C kernel still satisfies the kernel's extents (C contract of contracts/ckernels.py: xin holds n * nfeat
+    doubles per spin channel, outd likewise) — a mismatched shape never reaches C as an under-sized buffer."""
+    def run(ctx):
+        from contracts import c11
+        from contracts.kernelcommon import setup_interp, obj_list, pos, returned, SK_ASSUMPTION
+        it = ctx.interp
+        mod = setup_interp(it)
+        ctx.assume(SK_ASSUMPTION)
+        x = it.load_module(c11.XMOD)
+        cname = {"rbf": "RBFEvaluator", "antisym": "AntisymRBFEvaluator", "spin": "SpinRBFEvaluator"}[kind]
+        fname = {"rbf": "evaluate_se_kernel", "antisym": "evaluate_se_kernel_antisym", "spin": "evaluate_se_kernel_spin"}[kind]
+        E = x.ns[cname]
+        fn_opaque, _ = E.lookup("_fn")
+        log = []
+        it.externals[fn_opaque.name] = c11.c_se_contract(fname, log)
+        fq = ["%s:%s.__init__" % (c11.XMOD, cname), "%s:%s.__call__" % (c11.XMOD, cname), "%s:RBFEvaluator.__init__" % c11.XMOD, "%s:RBFEvaluator.__call__" % c11.XMOD]
+        nctrl, ng, nl = 2, 2, 3
+        lv = [tm.var("l%d" % f) for f in range(nl)]
+        c = tm.var("c0")
+        it.hyps = [pos(v) for v in lv] + [pos(c)]
+        ck = lambda k2: it.call_method(it.call(mod.ns["DiffConstantKernel"], [c], {}), "__mul__", [k2])
+        configs = []
+        if kind == "antisym":
+            configs.append(("DiffAntisymRBF", lambda: it.call(mod.ns["DiffAntisymRBF"], [], {"length_scale": obj_list(lv)}), nl + 1))
+        else:
+            configs.append(("DiffRBF", lambda: it.call(mod.ns["DiffRBF"], [], {"length_scale": obj_list(lv)}), nl))
+            configs.append(("c*DiffRBF", lambda: ck(it.call(mod.ns["DiffRBF"], [], {"length_scale": obj_list(lv)})), nl))
+            if kind == "rbf":
+                configs.append(("c*SubsetRBF[slice(1,3)]", lambda: ck(it.call(mod.ns["SubsetRBF"], [slice(1, 3, None)], {"length_scale": obj_list(lv[:2])})), 4))
+                configs.append(("c*SubsetRBF[list[2,0]]", lambda: ck(it.call(mod.ns["SubsetRBF"], [[2, 0]], {"length_scale": obj_list(lv[:2])})), 3))
+        for label, mk, nfeat in configs:
+            kern = mk()
+            Xc = sym_array("c", (2, nctrl, nfeat) if kind == "spin" else (nctrl, nfeat))
+            alpha = sym_array("a", (nctrl,))
+            try:
+                ev = it.call(E, [kern, Xc.copy(), alpha.copy()], {})
+            except (PyRaise, Unsupported) as e:
+                ctx.undecided("%s[%s] constructed" % (cname, label), str(e)[:200], fq)
+                continue
+            for width in (nfeat - 1, nfeat - 2, nfeat + 1):
+                if width < 1:
+                    continue
+                X1 = sym_array("x", (2, ng, width) if kind == "spin" else (ng, width))
+                del log[:]
+                name = "%s[%s] called with %d feature columns instead of %d: raises, or the arrays handed to C satisfy the kernel's extents" % (cname, label, width, nfeat)
+                try:
+                    cp = all_paths(it, lambda: it.call(ev, [X1.copy()], {}))
+                except c11.CPrecondition as e:
+                    ctx.holds(name, False, str(e)[:300], fq, witness={"kind": kind, "kernel": label, "width": width, "nfeat": nfeat}, replay=replay_evaluator_width(kind, label, width - nfeat))
+                    continue
+                ok = all(o != "return" or all(e[2] >= e[3] for e in log if e[0] == "extent") for o, v, pc, _ in cp)
+                ctx.holds(name, ok, "%s" % [(p[0], str(p[1])[:80]) for p in cp][:3], fq)
+    return run
+
+
+def replay_evaluator_width(kind, label, dwidth):
+    """Native: does the evaluator accept the mis-shaped matrix and reach the C entry point with it (the C routine itself is replaced by a spy)?"""
+    def replay(wit):
+        from pyvc import native
+        native.install_shim()
+        import ciderpress.models.kernels as K
+        import ciderpress.dft.xc_evaluator as X
+        rng = np.random.RandomState(4)
+        nl, nctrl, ng = 3, 4, 5
+        if "Subset" in label:
+            return {"reproduced": None, "note": "native replay implemented for the plain kernels"}
+        calls = []
+
+        class Spy(object):
+            def __call__(self, *a):
+                calls.append(a)
+        if kind == "antisym":
+            ev = X.AntisymRBFEvaluator(K.DiffAntisymRBF(length_scale=rng.rand(nl) + 0.5), rng.rand(nctrl, nl + 1), rng.rand(nctrl))
+            Xs = rng.rand(ng, nl + 1 + dwidth)
+        elif kind == "spin":
+            ev = X.SpinRBFEvaluator(K.DiffRBF(length_scale=rng.rand(nl) + 0.5), rng.rand(2, nctrl, nl), rng.rand(nctrl))
+            Xs = rng.rand(2, ng, nl + dwidth)
+        else:
+            ev = X.RBFEvaluator(K.DiffRBF(length_scale=rng.rand(nl) + 0.5), rng.rand(nctrl, nl), rng.rand(nctrl))
+            Xs = rng.rand(ng, nl + dwidth)
+        ev._fn = Spy()
+        try:
+            ev(Xs)
+        except Exception as e:
+            return {"reproduced": False, "raised": "%s: %s" % (type(e).__name__, str(e)[:100])}
+        nfeat_c = calls[0][8].value if calls else None
+        return {"reproduced": bool(calls), "accepted_width": int(Xs.shape[-1]), "nfeat_passed_to_C": nfeat_c}
+    return replay
+
+
 def units():
     u = [("semilocal", unit_semilocal), ("other-lengths", unit_other_lengths), ("feature-settings", unit_feature_settings),
          ("reject-params", unit_reject_params), ("reject-plans", unit_reject_plans), ("reject-shapes", unit_reject_shapes),
          ("c-extents", unit_c_extents), ("coef-wrappers", unit_coef_wrappers), ("l1-wrappers", unit_l1_wrappers), ("angc-wrapper", unit_angc_wrapper)]
     for v in ("i", "j", "ij", "k"):
         u.append(("nldf-lengths/" + v, unit_nldf_lengths(v)))
+    u.append(("plan-new-guard", unit_plan_new_guard))
+    for kind in ("rbf", "antisym", "spin"):
+        u.append(("evaluator-shapes/" + kind, unit_evaluator_shapes(kind)))
     return u
 
 
